@@ -134,6 +134,17 @@ const ERROR_NAMES: [&str; 6] = ["NotFound", "NotOK", "E2BIG", "Type", "X", "Inva
 const TYPE_NAMES: [&str; 5] = ["T", "MyURL", "Ab9", "Type", "IPv6Addr"];
 const IFACE_NAMES: [&str; 5] = ["org.c.Plain", "org.c.x-y", "io.c.HTTPApi", "a.b2", "org.c.lower"];
 
+/// Types used only for outputs and struct fields (their parameter spelling is not mirrored here).
+fn output_only_types(i: usize) -> Option<Ty> {
+    let b = |t: Ty| Box::new(t);
+    let all = [Ty::Arr(b(Ty::Opt(b(Ty::Str)))), Ty::Opt(b(Ty::Arr(b(Ty::Opt(b(Ty::Str)))))), Ty::Arr(b(Ty::Arr(b(Ty::Str)))), Ty::Map(b(Ty::Arr(b(Ty::Str)))), Ty::Arr(b(Ty::Map(b(Ty::Int)))), Ty::Map(b(Ty::Opt(b(Ty::Int))))];
+    if i % 3 == 0 {
+        Some(all[(i / 3) % all.len()].clone())
+    } else {
+        None
+    }
+}
+
 fn value_types(i: usize, m: &Iface) -> Ty {
     let base = [Ty::Bool, Ty::Int, Ty::Float, Ty::Str, Ty::Object, Ty::InlineStruct, Ty::InlineEnum];
     let b = |t: Ty| Box::new(t);
@@ -156,7 +167,7 @@ pub fn interfaces(thorough: bool) -> Vec<Iface> {
         // custom types first (fields use only builtin types, so that nothing is recursive)
         if k % 3 != 2 {
             let nf = 1 + k % 3;
-            let fields = (0..nf).map(|j| (FIELD_NAMES[(k + j * 5) % FIELD_NAMES.len()].to_string(), value_types(k * 3 + j, &Iface::default()))).collect::<Vec<_>>();
+            let fields = (0..nf).map(|j| (FIELD_NAMES[(k + j * 5) % FIELD_NAMES.len()].to_string(), output_only_types(k + j).unwrap_or_else(|| value_types(k * 3 + j, &Iface::default())))).collect::<Vec<_>>();
             m.structs.push((TYPE_NAMES[k % TYPE_NAMES.len()].to_string(), dedup_fields(fields)));
         }
         if k % 2 == 0 {
@@ -173,7 +184,7 @@ pub fn interfaces(thorough: bool) -> Vec<Iface> {
             let ni = (k + j) % 4;
             let no = (k / 2 + j) % 3;
             let ins = dedup_fields((0..ni).map(|p| (FIELD_NAMES[(k + j + p * 7) % FIELD_NAMES.len()].to_string(), value_types(k + j * 5 + p * 11, &m))).collect());
-            let outs = dedup_fields((0..no).map(|p| (FIELD_NAMES[(k * 2 + j + p * 5 + 3) % FIELD_NAMES.len()].to_string(), value_types(k * 7 + j * 3 + p * 13 + 2, &m))).collect());
+            let outs = dedup_fields((0..no).map(|p| (FIELD_NAMES[(k * 2 + j + p * 5 + 3) % FIELD_NAMES.len()].to_string(), output_only_types(k + j + p + 1).unwrap_or_else(|| value_types(k * 7 + j * 3 + p * 13 + 2, &m)))).collect());
             m.methods.push((name, ins, outs));
         }
         let ne = k % 3;
@@ -184,7 +195,38 @@ pub fn interfaces(thorough: bool) -> Vec<Iface> {
         }
         out.push(m);
     }
+    out.extend(edge_interfaces());
     out
+}
+
+/// Names that can not be escaped as raw identifiers, an interface whose last segment starts with a
+/// digit, and everything at once.
+fn edge_interfaces() -> Vec<Iface> {
+    let s = |x: &str| x.to_string();
+    let b = |t: Ty| Box::new(t);
+    vec![
+        Iface { name: s("a.9b"), methods: vec![(s("M"), vec![(s("a"), Ty::Int)], vec![(s("b"), Ty::Str)])], ..Default::default() },
+        Iface {
+            name: s("org.edge.reserved"),
+            structs: vec![(s("Self"), vec![(s("self"), Ty::Int), (s("crate"), Ty::Str), (s("super"), Ty::Bool)])],
+            enums: vec![(s("Crate"), vec![s("crate"), s("self"), s("Super")])],
+            methods: vec![
+                (s("Self"), vec![(s("self"), Ty::Int), (s("crate"), Ty::CustomStruct(0))], vec![(s("self"), Ty::CustomStruct(0)), (s("super"), Ty::CustomEnum(0))]),
+                (s("Crate"), vec![(s("super"), Ty::Opt(b(Ty::CustomEnum(0))))], vec![]),
+                (s("Super"), vec![], vec![(s("crate"), Ty::Arr(b(Ty::Opt(b(Ty::Str)))))]),
+            ],
+            errors: vec![(s("Self"), vec![(s("self"), Ty::Int)]), (s("Crate"), vec![])],
+            ..Default::default()
+        },
+        Iface {
+            name: s("org.edge.kw"),
+            structs: vec![(s("Type"), vec![(s("type"), Ty::Str), (s("fn"), Ty::Int), (s("async"), Ty::Opt(b(Ty::Bool))), (s("loop"), Ty::Arr(b(Ty::Int)))])],
+            enums: vec![(s("Match"), vec![s("match"), s("type"), s("fn"), s("Loop")])],
+            methods: vec![(s("Loop"), vec![(s("while"), Ty::Int), (s("for"), Ty::CustomEnum(0))], vec![(s("in"), Ty::CustomStruct(0)), (s("use"), Ty::Opt(b(Ty::Arr(b(Ty::Opt(b(Ty::Str)))))))]), (s("Move"), vec![], vec![])],
+            errors: vec![(s("Mod"), vec![(s("impl"), Ty::Str)]), (s("Dyn"), vec![])],
+            ..Default::default()
+        },
+    ]
 }
 
 fn dedup_fields(f: Vec<(String, Ty)>) -> Vec<(String, Ty)> {
